@@ -30,7 +30,9 @@ EXPLANATION = (
     "_maybe_decode_and_decrypt_segment hands the decode -> decrypt -> _set_segment Deferred back to the segment loop on "
     "every path after the decode started, _set_segment writes the segment on every non-verify path and advances "
     "_current_segment by exactly one exactly once, only _setup_encoding_parameters (= _start_segment) and _set_segment "
-    "move _current_segment, _process_segment is run for _current_segment; (12) _set_segment cuts the tail only under "
+    "move _current_segment, _process_segment is run for _current_segment, Retrieve._done (the only place that fires "
+    "_done_deferred with success) is called only by _download_current_segment behind _current_segment > _last_segment "
+    "(or in verify mode) and by download() behind size == 0; (12) _set_segment cuts the tail only under "
     "_current_segment == _last_segment and a non-zero bound, the head only under _current_segment == _start_segment, "
     "does each cut on every path to the write where that equality holds (unless an edge says the boundary remainder is "
     "zero), and blanks the segment only under _read_length == 0. "
@@ -38,7 +40,8 @@ EXPLANATION = (
     "this includes edits that only make a gate stricter, e.g. `and` -> `or` in the SDMF IV test, skipping "
     "bht.set_hashes(blockhashes), negating the bad-share / running tests of the servermap updater), pause/stop "
     "handling, the values of the trim bounds ((offset + read_length) % segment_size, offset % segment_size) and the "
-    "order tail-before-head, _decode_blocks' own trimming (C09), publish-side surprise handling (C12).")
+    "order tail-before-head, the start/last segment arithmetic of _setup_encoding_parameters and _decode_blocks' own "
+    "trimming (C09), publish-side surprise handling (C12).")
 TECHNIQUE = "static analysis: CFG must-precede gates on normalised edge facts, who-may-call/write sweeps, Deferred chain order, reaching definitions"
 
 SM = "mutable.servermap:ServermapUpdater"
